@@ -93,6 +93,27 @@ func (n *NetWorld) OnProbe(w *Wire, sink int, raw []byte, p *Probe, perr error, 
 	sc := n.script(fs.idx)
 	h := sc.Hop(ttl)
 	reached := sc.DestDist > 0 && ttl >= sc.DestDist
+	if h.AckLost && reached && p.Kind == "tcp-ack" && !h.Silent {
+		fs.sackReceive(p) // the receiver got the byte; its duplicate ACK never arrives
+		h.Silent = true
+	}
+	if h.Both && !h.Silent {
+		var data []byte
+		var tag Tag
+		if reached {
+			ra := routerAddr(p.IP.V6, addrKindFor(sc.AddrKind, ttl), fs.idx, ttl)
+			data = icmpError(ra, p.IP.Src, FormSpec{}, quoteOf(raw, FormSpec{}))
+			tag = Tag{Class: "genuine", CreditTTL: ttl, Responder: ra.String(), Form: "min"}
+		} else {
+			hh := h
+			hh.FromOther = ""
+			data, tag = n.destReply(fs, p, hh)
+		}
+		if data != nil && tag.Class == "genuine" {
+			tag.Flow, tag.CausedBy = fs.key, ttl
+			out = append(out, Sched{Delay: us(h.BothDelayUs), Data: data, Tag: tag})
+		}
+	}
 	if !h.Silent {
 		var data []byte
 		var tag Tag
